@@ -5,6 +5,7 @@ import (
 	"go/constant"
 	"go/token"
 	"go/types"
+	"os"
 	"strings"
 )
 
@@ -15,6 +16,7 @@ type SpecCtx struct {
 	old   *Snapshot      // pre-state for old()
 	cur   *Snapshot      // nil: current state; otherwise evaluate heap reads in this snapshot
 	where string
+	fn    string // function whose locals the identifiers may denote
 	bound int
 	grant bool // evaluating preconditions of the function under verification (tok() grants the token)
 }
@@ -167,6 +169,19 @@ func (sc *SpecCtx) ident(name string) Val {
 		return mkInt("60000000000")
 	case "Hour":
 		return mkInt("3600000000000")
+	}
+	// a local the pinned tree knew under this name may have been renamed: re-bind by position (symbols.go)
+	if sc.fn != "" {
+		if nn := e.renamed(sc.fn, name); nn != "" {
+			if v, ok := sc.vars[nn]; ok {
+				msg := fmt.Sprintf("contract of %s: local %q is now called %q (re-bound by position)", sc.fn, name, nn)
+				if e.warnings[msg] == 0 {
+					fmt.Fprintln(os.Stderr, "NOTE:", msg)
+				}
+				e.warn("%s", msg)
+				return v
+			}
+		}
 	}
 	sc.fail("unknown identifier %q", name)
 	return Val{}
